@@ -382,9 +382,15 @@ def enum(ctx):
            'a discriminant that does not fit the base type must be rejected; ' + ('found a range test' if g17 else 'no test of the value against the base type\'s range exists — the backend emits `value as _`, which truncates'), where)
     # marker attributes: copyable => cloneable (C13-D3, C17-D3)
     okm = True
+    homes = set()
     for nm in ('copyable', 'cloneable', 'defaultable'):
-        okm = okm and strip(ed[nm])[0] == 'var'
-    strs = [op.get('str') for bi in f.normal_blocks() for op in f.block_operands(bi) if op.get('k') == 'Const' and 'str' in op]
+        hf, hv = state_home(f, ed[nm])
+        okm = okm and hv[0] == 'var'
+        homes.add(hf.id)
+    okm = okm and len(homes) == 1
+    hf = P.fns[sorted(homes)[0]]
+    strs = [op.get('str') for bi in hf.normal_blocks() for op in hf.block_operands(bi) if op.get('k') == 'Const' and 'str' in op]
+    strs += [op.get('str') for bi in f.normal_blocks() for op in f.block_operands(bi) if op.get('k') == 'Const' and 'str' in op]
     okm = okm and all(s in strs for s in ('copyable', 'cloneable', 'defaultable', 'singleton'))
     ctx.ob(['C17', 'C13'], 'R-SLP', 'EB|markers', okm, 'copyable/cloneable/defaultable/default/singleton attributes are read into the enum definition', where)
     copy_implies_clone(ctx, f, ed, 'EB')
@@ -402,9 +408,10 @@ def enum(ctx):
 
 def copy_implies_clone(ctx, f, d, tag):
     """wherever the `copyable` flag is set to true, `cloneable` is set to true on the same path"""
-    cp, cl = strip(d['copyable']), strip(d['cloneable'])
+    (f1, cp), (f2, cl) = state_home(f, d['copyable']), state_home(f, d['cloneable'])
     ok = False
-    if cp[0] == 'var' and cl[0] == 'var':
+    if cp[0] == 'var' and cl[0] == 'var' and f1 is f2:
+        f = f1
         sets_cp = [(bi) for (bi, si, kind, payload, span) in f.defs()[cp[1]] if f.expr_of_def((bi, si, kind, payload, span)) == ('int', 1, 'bool')]
         sets_cl = [(bi) for (bi, si, kind, payload, span) in f.defs()[cl[1]] if f.expr_of_def((bi, si, kind, payload, span)) == ('int', 1, 'bool')]
         ok = bool(sets_cp) and all(any(b == c or (f.dominates(b, c) and f.postdominates(c, b)) or (f.dominates(c, b) and f.postdominates(b, c)) for c in sets_cl) for b in sets_cp)
@@ -520,6 +527,17 @@ def attribute_table(ctx):
         e = strip(e)
         return e[1] if e[0] == 'var' else None
 
+    def rehome(f, exprs):
+        """roles given as expressions of f -> (home function, {role: local}); every role must live in the same function"""
+        out, homes = {}, {}
+        for k, e in exprs.items():
+            hf, hv = state_home(f, e) if e is not None else (f, ('none',))
+            out[k] = hv[1] if hv[0] == 'var' else None
+            homes[hf.id] = hf
+        if len(homes) != 1:
+            return f, {k: None for k in exprs}
+        return list(homes.values())[0], out
+
     def check(tag, props, f, roles, expect):
         """roles: name -> local; expect: literal -> set of role names"""
         if any(v is None for v in roles.values()):
@@ -584,7 +602,7 @@ def attribute_table(ctx):
                     if isinstance(x, tuple) and x[0] == 'agg' and x[1].endswith('EnumDefinition'):
                         ed = dict(x[2])
         if ed:
-            roles = {k: var_of(ed[k]) for k in ('copyable', 'cloneable', 'defaultable', 'singleton')}
+            f, roles = rehome(f, {k: ed[k] for k in ('copyable', 'cloneable', 'defaultable', 'singleton')})
             check('enum', ['C17', 'C08', 'C15'], f, roles,
                   {'singleton': {'singleton'}, 'copyable': {'copyable', 'cloneable'}, 'cloneable': {'cloneable'}, 'defaultable': {'defaultable'}})
     am = [f for f in P.fns.values() if f.id.endswith('SemanticState::add_module')]
